@@ -79,7 +79,7 @@ class C09(Check):
 
     def strata(self, tier):
         return [('S-alldelayed', 4), ('S-mixed', 3), ('S-heun', 1), ('S-conn-single', 2), ('S-conn-multi', 1),
-                ('S-step', 2)]
+                ('S-step', 2), ('S-hub', 1)]
 
     def generate(self, rng, stratum, tier):
         dt = rng.choice([1e-3, 0.01, 0.05])
@@ -104,7 +104,42 @@ class C09(Check):
             return {}
         spec = models.gen_net(rng, n_nodes=rng.randint(2, 5), libs=('lin', 'leak', 'integ', 'osc', 'linl'), max_edges=6,
                               delays=delays, hier=rng.random() < 0.2)
+        if stratum == 'S-hub':
+            spec = self.gen_hub(rng, dt)
+            cfg['vectorize'] = rng.random() < 0.8
         return {'spec': spec, 'cfg': cfg}
+
+    @staticmethod
+    def gen_hub(rng, dt):
+        """one hub node of its own operator kind projecting with DIFFERENT delays onto several nodes of one other kind
+        (the hub is a vectorized group of size one; all its edges form one edge group)"""
+        ka, kb = rng.sample(['lin', 'leak', 'integ', 'linl'], 2)
+        spec = models.gen_net(rng, n_nodes=1, libs=(ka,), max_edges=0, build=rng.choice(['python', 'yaml']))
+        spokes = models.gen_net(rng, n_nodes=rng.randint(2, 4), libs=(kb,), max_edges=0, uniq='_s')
+        hub = next(iter(spec['nodes']))
+        spec['ops'].update(spokes['ops'])
+        spec['nts'].update(spokes['nts'])
+        for n, ntk in spokes['nodes'].items():
+            spec['nodes'][n + 's'] = ntk
+        hk = spec['ops'][spec['nts'][spec['nodes'][hub]]['ops'][0]]
+        src = f"{hub}/{hk['name']}/{models.LIB[hk['lib']]['out']}"
+        steps = rng.sample(range(2, 13), len(spokes['nodes']))
+        for (n, ntk), nd in zip(spokes['nodes'].items(), steps):
+            ok = spec['ops'][spokes['nts'][ntk]['ops'][0]]
+            spec['edges'].append([src, f"{n}s/{ok['name']}/{models.LIB[ok['lib']]['in']}",
+                                  {'weight': rng.randint(-32, 32) / 16 or 0.5, 'delay': (nd + rng.uniform(-0.4, 0.4)) * dt}])
+        pool = list(range(-96, 97))
+        rng.shuffle(pool)
+        for nt in spec['nts'].values():          # one pool for all initial values: every state variable stays decodable
+            for opk, var in nt['var'].items():
+                for sv in models.LIB[spec['ops'][opk]['lib']]['state']:
+                    var[sv] = pool.pop() / 64
+        if rng.random() < 0.4:      # a spoke talks back without delay
+            n, ntk = rng.choice(list(spokes['nodes'].items()))
+            ok = spec['ops'][spokes['nts'][ntk]['ops'][0]]
+            spec['edges'].append([f"{n}s/{ok['name']}/{models.LIB[ok['lib']]['out']}", f"{hub}/{hk['name']}/{models.LIB[hk['lib']]['in']}",
+                                  {'weight': 0.5}])
+        return spec
 
     # ---------------------------------------------------------------------------------------------------
     def execute(self, trace):
